@@ -283,6 +283,22 @@ Fixpoint run_extend (b : builder) (ops : list op) : builder * res unit :=
               match x with Ok _ => run_extend b1 r | _ => (b1, x) end
   end.
 
+(* several extend_iter / extend_stream calls on ONE builder: every batch stops at its first
+   rejected item and returns that error (the rest of that batch is not looked at); the builder
+   lives on and the next batch continues from the state the previous one left.  One result per
+   batch. *)
+Fixpoint run_batches (b : builder) (batches : list (list op)) : builder * list (res unit) :=
+  match batches with
+  | [] => (b, [])
+  | ops :: r => let '(b1, x) := run_extend b ops in let '(b2, xs) := run_batches b1 r in (b2, x :: xs)
+  end.
+(* bytes_written after every batch (what the caller can observe between two batches) *)
+Fixpoint batches_written (b : builder) (batches : list (list op)) : list N :=
+  match batches with
+  | [] => []
+  | ops :: r => let b1 := fst (run_extend b ops) in b_count b1 :: batches_written b1 r
+  end.
+
 Definition build_ops (summer : list N -> N) (ty rows cols : N) (ops : list op) : res (list N) :=
   let '(b, r) := run_extend (new_builder ty rows cols) ops in
   match r with Ok _ => b_finish summer b | Err x => Err x | Panic => Panic end.
